@@ -90,6 +90,41 @@ def generate(rng, tier, seed):
                     c.pred("retail MAC = ISO 9797-1 algorithm 3 (related keys)",
                            lambda rep, r=r, i=i: None if (r.ok and rep[i] == "ok\t" + enc_b(r.value)) else f"{r.value.hex() if r.ok else r.err} != {rep[i]}")
                     yield c
+    # key pairs with the same key check value (corpus/C07/kcv_collisions.jsonl, built with the `cryptography` package): different keys
+    # that an "are these the same key?" test by check value confuses - for the retail MAC both keys count, whatever they have in common
+    import json as _json
+    import os as _os
+    _p = _os.path.join(_os.path.dirname(_os.path.dirname(_os.path.dirname(_os.path.abspath(__file__)))), "corpus", "C07", "kcv_collisions.jsonl")
+    if _os.path.exists(_p):
+        for _line in open(_p):
+            e = _json.loads(_line)
+            k1, k2 = bytes.fromhex(e["key1"]), bytes.fromhex(e["key2"])
+            for a_, b_ in ((k1, k2), (k2, k1)):
+                data, padding = rb(rng, rng.choice((0, 8, 13, 24))), rng.choice((1, 2, 3))
+                c = Case("retail_mac:keys-with-equal-check-value", {"size": len(k1), "kcv_bytes": e["kcv_bytes"]})
+                r = c.call("mac.generate_retail_mac", a_, b_, data, padding, None)
+                i = c.line(f"spec.mac3\t{enc_b(a_)}\t{enc_b(b_)}\ti:{padding}\t{enc_b(data)}\ti:8")
+                c.pred("retail MAC = ISO 9797-1 algorithm 3 (keys with equal check value)",
+                       lambda rep, r=r, i=i: None if (r.ok and rep[i] == "ok\t" + enc_b(r.value)) else f"{r.value.hex() if r.ok else r.err} != {rep[i]}")
+                yield c
+    # megabyte messages: exact multiples of 2^20 bytes, one block either side (where an implementation that streams or slices large
+    # inputs changes path); judged against harness/ref_mac.py (the `cryptography` package) - the Lean reference ciphers would
+    # take minutes over this volume - so these cases have no driver lines
+    import ref_mac
+    for n in ((1 << 20), (1 << 20) - 8, (1 << 20) + 8, (1 << 20) + 3, 2 << 20, (1 << 16), (1 << 16) + 1):
+        data = rb(rng, 4096) * (n // 4096) + rb(rng, n % 4096)
+        for padding in (1, 2, 3):
+            kd, ka, k2 = rb(rng, rng.choice((8, 16, 24))), rb(rng, rng.choice((16, 24, 32))), rb(rng, rng.choice((8, 16, 24)))
+            c = Case("megabyte-message", {"len": n, "padding": padding})
+            c.key = ("mb", n, padding)
+            for label, r, want in (("CBC-MAC (DES)", core.call_impl("mac.generate_cbc_mac", (kd, data, padding, None, A.DES)), ref_mac.mac1("des", kd, data, padding)),
+                                   ("CBC-MAC (AES)", core.call_impl("mac.generate_cbc_mac", (ka, data, padding, 8, A.AES)), ref_mac.mac1("aes", ka, data, padding, 8)),
+                                   ("retail MAC", core.call_impl("mac.generate_retail_mac", (kd, k2, data, padding, None)), ref_mac.mac3(kd, k2, data, padding))):
+                if not r.ok:
+                    c.fail(f"{label} of a {n}-byte message raised {r.err}")
+                elif r.value != want:
+                    c.fail(f"{label} of a {n}-byte message (padding {padding}) = {r.value.hex()}, ISO 9797-1 gives {want.hex()}")
+            yield c
     # message content that looks padded already: block-aligned messages ending in 80, 80 00, 80 00 .. 00, all-zero messages, messages
     # ending in 00 - under every padding method the MAC is over the message padded once more as the method says
     for algname, alg, bs, ks in (("des", A.DES, 8, 16), ("aes", A.AES, 16, 32), ("des", A.DES, 8, 8)):
